@@ -4,6 +4,7 @@ Decides: R1 a/b homomorphism of every LWE operation against an operator table; R
 [0, params->n) for every n >= 1, including the strip-mined AVX2 subtraction; R3 variance annotation;
 R4 TLWE operations apply the polynomial operation to all k+1 components; R5 sample/key extraction index
 maps for every index; R6 in-place forms read and write the same index only.
+R7 tLweMulByXaiMinusOne hands the exponent (or an exact reduction mod 2N) to the polynomial routine for all k+1 components.
 """
 from sa import affine, pam, summ, sym
 from sa.facts import Program
@@ -379,3 +380,56 @@ def run(chk):
         for name, spec in TLWE_OPS.items():
             check_tlwe_op(chk, v, name, spec)
         check_extraction(chk, v)
+        check_tlwe_monomial(chk, v)
+
+
+def check_tlwe_monomial(chk, v):
+    """R7: tLweMulByXaiMinusOne applies (X^ai - 1) to every one of the k+1 components: the polynomial routine (whose map
+    C11.R1 decides for 0 <= a < 2N) is called on (&result->a[i], e, &bk->a[i]) for i in [0, k], where the exponent e is ai
+    itself or an exact reduction of ai modulo 2N.  `ai & (2N-1)` is such a reduction only when N is a power of two, which
+    the property does not grant (every dimension N)."""
+    vn = v.name
+    f = v.fn("tLweMulByXaiMinusOne", required=False)
+    if f is None:
+        chk.broken("tLweMulByXaiMinusOne not found")
+    ps, _ = summ.pieces(v, f, hooks=summ.InlineLib(only=lambda fn: False))
+    res, ai, bk, par = [p["n"] for p in f.params]
+    K, Nn = P(par, "k"), P(par, "N")
+    calls = [p for p in ps if p["kind"] == "call" and p["name"] == "torusPolynomialMulByXaiMinusOne"]
+    other = [p for p in ps if p["kind"] == "store" and sym.root_of(p["lv"]) == sym.sym(res) and not p.get("byref")]
+    key = "tLweMulByXaiMinusOne multiplies each of the k+1 components by X^ai - 1 for every ring degree"
+    problems = []
+    if len(calls) != 1 or other or len(calls[0]["loops"]) != 1 or calls[0]["guards"]:
+        chk.broken("tLweMulByXaiMinusOne: expected one unconditional polynomial call in a loop over the components")
+    c = calls[0]
+    lp = c["loops"][0]
+    i = lp["var"]
+    hi = lp["hi"] if lp["cmp"] == "<" else sym.add(lp["hi"], I(1)) if lp["cmp"] == "<=" else None
+    if lp["lo"] != ZERO or hi != sym.add(K, I(1)):
+        problems.append("components [%s, %s) are processed, a TLWE sample has k+1" % (sym.show(lp["lo"]), sym.show(hi) if hi is not None else "?"))
+    a = c["args"]
+    if a[0] != sym.addr(sym.idx(P(res, "a"), i)) or a[2] != sym.addr(sym.idx(P(bk, "a"), i)):
+        problems.append("called on (%s, ., %s), expected (&result->a[i], ., &bk->a[i])" % (sym.show(a[0])[:40], sym.show(a[2])[:40]))
+    e = a[1]
+    while e[0] == "cast":
+        e = e[2]
+    A = sym.sym(ai)
+    twoN = sym.mul(I(2), Nn)
+    if e == A:
+        why = None
+    elif e[0] == "op" and e[1] == "%" and e[2] == A and e[3] == twoN:
+        why = None              # exact reduction for ai >= 0 (the documented domain of the rotation amounts)
+    elif e[0] == "op" and e[1] == "&" and A in (e[2], e[3]):
+        m = e[3] if e[2] == A else e[2]
+        if m == sym.sub(twoN, I(1)):
+            why = ("the exponent is reduced with ai & (2N-1), which is ai mod 2N only when N is a power of two: for any other ring degree "
+                   "(e.g. N = 3, ai = 4: 4 & 5 = 4, 4 mod 6 = 4; ai = 2: 2 & 5 = 0) most exponents are replaced by a different one")
+        else:
+            why = "the exponent passed on is %s" % sym.show(e)
+    else:
+        chk.broken("tLweMulByXaiMinusOne: exponent expression %s not recognised" % sym.show(e))
+    if why:
+        problems.append(why)
+    chk.require(not problems, "R7", key, where=f.where, ok="torusPolynomialMulByXaiMinusOne(&result->a[i], %s, &bk->a[i]) for i in [0, k]" % sym.show(e),
+                bad="; ".join(problems), variant=vn)
+    chk.vcount(vn, "R7.tlwe_monomial_functions")
